@@ -250,6 +250,9 @@ def rule_guards(ctx):
         ("SELECT qualified subquery in projection", False, False, (90105, "22000")),
         ("SELECT qualified subquery in projection", True, False, (90106, "22000")),
         ("SELECT qualified FROM unqualified JOIN", False, False, (90105, "22000")),
+        # a CTE reference is not an object name: with every real table qualified the statement needs no context
+        ("SELECT qualified JOIN cte", False, False, None),
+        ("SELECT qualified JOIN cte", True, False, None),
         ("INSERT", False, False, (90105, "22000")),
         ("CREATE TABLE", True, False, (90106, "22000")),
         ("CREATE SCHEMA", False, False, (90105, "22000")),
@@ -315,6 +318,7 @@ def rule_own_context(ctx):
         "SHOW TABLES IN SCHEMA": ("CUR_DB", "S"),
         # a database named in the statement is the one listed, whatever the session's current database is
         "SHOW SCHEMAS IN DATABASE": ("D",),
+        "SHOW SCHEMAS IN <database>": ("D",),
     }
     # the same statements at the two other qualification levels: a given part is used as given, a missing one comes
     # from the context ("an unqualified or schema-qualified object name ... denotes exactly the object the fully
